@@ -7,8 +7,11 @@ Free == {<<"create", "owneradd">> \o q : q \in [1..(MaxSteps - 2) -> Kinds \ {"o
 Alt  == {<<"create", "owneradd">> \o [i \in 1..(MaxSteps - 2) |-> IF i % 2 = 0 THEN "incorporate" ELSE q[(i + 1) \div 2]] :
             q \in [1..((MaxSteps - 1) \div 2) -> Kinds \ {"owneradd", "incorporate"}]}
 \* the second-level flow: B is created, A delegates to it, the owner incorporates A, B's holder updates, ...
+\* the two-step way of adding a role: staged by the owner, then published with `update --role targets`
+Staged == {<<"create", "owneraddstaged", "incorporateT">> \o q : q \in [1..(MaxSteps - 3) -> Kinds \ {"owneradd"}]}
 Deep == {<<"create", "owneradd", "create", "delegadd", "incorporate">> \o q : q \in [1..(MaxSteps - 5) -> {"update", "incorporate", "removekey", "create"}]}
 MC_Free == Free
 MC_Alt == Alt
 MC_Deep == Deep
+MC_Staged == Staged
 =============================================================================
